@@ -51,7 +51,7 @@ fn mins(t: ExtendedTime) -> i32 {
     t.mins_from_midnight() as i32
 }
 
-//@H props=C01,C04 tier=quick kind=complete cap=600 domain="all four events x all dates (no coordinates)"
+//@H props=C01,C11,C04 tier=quick kind=complete cap=600 domain="all four events x all dates (no coordinates)"
 #[cfg_attr(kani, kani::proof)]
 #[cfg_attr(verif_replay, test)]
 fn default_event_times() {
